@@ -4,12 +4,12 @@ import argparse, importlib, sys, os
 sys.path.insert(0, os.path.dirname(os.path.dirname(os.path.abspath(__file__))))
 from vx.extract import Unit
 ap = argparse.ArgumentParser(); ap.add_argument("unit"); ap.add_argument("--canaries", action="store_true")
-ap.add_argument("--repo", default="/repo"); ap.add_argument("-o", default="-")
+ap.add_argument("--repo", default="/repo"); ap.add_argument("-o", default="-"); ap.add_argument("--view", default=None)
 a = ap.parse_args()
 verif = os.path.dirname(os.path.dirname(os.path.abspath(__file__)))
 mod = importlib.import_module("contracts." + a.unit)
 u = Unit(a.unit, a.repo, verif); mod.build(u)
-text, org = u.render(canaries=a.canaries)
+text, org = u.render(canaries=a.canaries, view=a.view or (mod.PROPS[0] if getattr(mod, "PROPS", None) else None))
 (sys.stdout if a.o == "-" else open(a.o, "w")).write(text)
 for it in u.items:
     for h in it.hints_lost: print("HINT LOST", h, file=sys.stderr)
